@@ -190,6 +190,32 @@ func (x *Exec) zeroVal(ty types.Type) *Val {
 
 func emptySetStr() *Term { return mk("emptyset.Str", SSetStr) }
 
+// mapSet returns the set of keys of a map value: package-level constant maps are set values, all others references.
+func (x *Exec) mapSet(st *St, m *Val) *Term {
+	if m.T.Sort == SSetStr {
+		return m.T
+	}
+	return Select(st.field(x.W.GhostVars["maps"]), m.T)
+}
+
+// newMap allocates an empty map.
+func (x *Exec) newMap(st *St, ty types.Type) *Val {
+	r := x.fresh("new.map", SRef)
+	al := st.alloc()
+	x.assume(st, Neq(r, Null))
+	x.assume(st, Not(Select(al, r)))
+	nal := x.fresh("$alloc", al.Sort)
+	x.assume(st, Eq(nal, Store(al, r, True)))
+	st.heap["$alloc"] = nal
+	st.fresh = append(st.fresh, r)
+	g := x.W.GhostVars["maps"]
+	old := st.field(g)
+	nw := x.fresh(g.Key, old.Sort)
+	x.assume(st, Eq(nw, Store(old, r, emptySetStr())))
+	st.heap[g.Key] = nw
+	return &Val{T: r, Ty: ty}
+}
+
 func (x *Exec) supported(ty types.Type) (Sort, bool) {
 	if _, ok := isStructVal(ty); ok {
 		return "", true
@@ -457,6 +483,10 @@ func (x *Exec) coerce(st *St, v *Val, to types.Type) *Val {
 					x.W.BG.Funs["unbox.Str"] = FunSig{Name: "unbox.Str", Args: []Sort{SRef}, Res: SStr}
 					x.assume(st, Eq(App("unbox.Str", SStr, b), v.T))
 				}
+				if v.T.Sort == SInt {
+					x.W.BG.Funs["unbox.Int"] = FunSig{Name: "unbox.Int", Args: []Sort{SRef}, Res: SInt}
+					x.assume(st, Eq(App("unbox.Int", SInt, b), v.T))
+				}
 				return &Val{T: b, Ty: to}
 			}
 			if _, fromIface := v.Ty.Underlying().(*types.Interface); !fromIface {
@@ -624,6 +654,9 @@ func (w *World) globalInit(v *types.Var) *Term {
 							return nil
 						}
 						s, _ := w.SortOf(v.Type())
+						if _, isMap := v.Type().Underlying().(*types.Map); isMap {
+							s = SSetStr
+						}
 						switch s {
 						case SSeqStr:
 							t := SeqEmpty(SSeqStr)
